@@ -1207,6 +1207,13 @@ func init() {
 			c18NetRun(c)
 		},
 		Replay: func(c *core.Ctx, raw json.RawMessage) {
+			var probe struct {
+				Kind string `json:"kind"`
+			}
+			if json.Unmarshal(raw, &probe) == nil && probe.Kind == "reply-size" {
+				c18ReplySizes(c) // deterministic stage: re-run it whole
+				return
+			}
 			var k c18Case
 			if json.Unmarshal(raw, &k) == nil {
 				c18RunCase(c, k)
